@@ -164,4 +164,8 @@ def tasks(tier):
         for unchecked in (False, True):
             for el in ('int', 'byte', 'bool', 'string'):
                 out.append(task(MOD, 'run_initializer', P, label=f'guard/array-initializer/{el}/w{w}/u{int(unchecked)}', cost=5, el=el, w=w, unchecked=unchecked))
+    if tier == 'quick':
+        # a word size that is not a power of two: the size computation scales by the word size
+        for el in ('int', 'string', 'bool'):
+            out.append(task(MOD, 'run_initializer', P, label=f'guard/array-initializer/{el}/w3/u0', cost=5, el=el, w=3, unchecked=False))
     return out
